@@ -33,6 +33,7 @@ type C07BlankCase struct {
 	Wrap      int          `json:"wrap"`       // 0: bare Blank; 1: Blank inside a transforming source without manglers; 2: with a (type-preserving here) set->slice mangler
 	Ops       []C07BlankOp `json:"ops"`
 	DoneAfter bool         `json:"done_after,omitempty"` // finish with Blank.Done under a 1h deadline
+	Reuse     bool         `json:"reuse,omitempty"` // the same Blank is (wrongly) handed to a second Config, which must refuse it without disturbing the first Dials
 	DoneFirst bool         `json:"done_first,omitempty"` // Blank.Done is called before the SetSource calls (the monitor lives on iff there is another watcher)
 }
 
@@ -40,6 +41,7 @@ func genC07Blank(t *rapid.T) C07BlankCase {
 	c := C07BlankCase{Skip: rapid.Bool().Draw(t, "skip"), Other: rapid.Bool().Draw(t, "other"), ExitFirst: rapid.IntRange(0, 4).Draw(t, "exit_first") == 0}
 	c.Wrap = rapid.IntRange(0, 2).Draw(t, "wrap")
 	c.DoneFirst = !c.ExitFirst && rapid.IntRange(0, 4).Draw(t, "done_first") == 0
+	c.Reuse = rapid.IntRange(0, 4).Draw(t, "reuse") == 0
 	gone := c.ExitFirst || (c.DoneFirst && !c.Other)
 	g := &genState{}
 	n := rapid.IntRange(1, 5).Draw(t, "ops")
@@ -53,6 +55,9 @@ func genC07Blank(t *rapid.T) C07BlankCase {
 		}
 		c.Ops = append(c.Ops, op)
 	}
+	// the last call may hand the Blank a WATCHING inner source (afterwards the
+	// Blank refuses replacements, so only the last one)
+	c.Ops[len(c.Ops)-1].Watcher = rapid.Bool().Draw(t, "last_is_watcher")
 	c.DoneAfter = rapid.Bool().Draw(t, "done_after")
 	return c
 }
@@ -111,6 +116,16 @@ func runC07Blank(c C07BlankCase) (verdict vrt.Verdict) {
 			return
 		}
 		r.d = d
+		if c.Reuse {
+			ctx2, cancel2 := context.WithCancel(context.Background())
+			_, err2 := dials.Params[SimCfg]{SkipInitialVerification: true}.Config(ctx2, defaults.Cfg(), bsrc)
+			cancel2()
+			synctest.Wait()
+			if err2 == nil {
+				fail("a second Config accepted a Blank that is already in use")
+				return
+			}
+		}
 		if c.ExitFirst {
 			cfgCancel()
 			synctest.Wait()
@@ -126,9 +141,12 @@ func runC07Blank(c C07BlankCase) (verdict vrt.Verdict) {
 		var cur SimLayer
 		for i := range c.Ops {
 			op := &c.Ops[i]
-			step := fmt.Sprintf("op %d (ctx=%s hold=%q)", i, op.Ctx, op.Hold)
+			step := fmt.Sprintf("op %d (ctx=%s hold=%q watching inner=%v)", i, op.Ctx, op.Hold, op.Watcher && i == len(c.Ops)-1)
 			l := op.L
-			src := &fake.Static{Mk: func(t *dials.Type) reflect.Value { return l.Value(t.Type()) }}
+			var src dials.Source = &fake.Static{Mk: func(t *dials.Type) reflect.Value { return l.Value(t.Type()) }}
+			if op.Watcher && i == len(c.Ops)-1 {
+				src = &fake.Watcher{Mk: func(t *dials.Type) reflect.Value { return l.Value(t.Type()) }}
+			}
 			st := Stack(defaults, []SimLayer{{}, l})
 			valid := st.Limit >= 0
 			ctx, cancel := context.WithCancel(context.Background())
@@ -257,14 +275,14 @@ func runC07Blank(c C07BlankCase) (verdict vrt.Verdict) {
 	if msg != "" {
 		return vrt.KeyedViolationf("blank", "%s", msg)
 	}
-	return vrt.OK(heldCount > 0 || c.ExitFirst || c.DoneFirst || rejected > 0, fmt.Sprintf("held=%d", min(heldCount, 3)), fmt.Sprintf("exit_first=%v", c.ExitFirst), fmt.Sprintf("done_first=%v", c.DoneFirst), fmt.Sprintf("wrap=%d", c.Wrap))
+	return vrt.OK(heldCount > 0 || c.ExitFirst || c.DoneFirst || rejected > 0, fmt.Sprintf("held=%d", min(heldCount, 3)), fmt.Sprintf("exit_first=%v", c.ExitFirst), fmt.Sprintf("done_first=%v", c.DoneFirst), fmt.Sprintf("reuse=%v", c.Reuse), fmt.Sprintf("wrap=%d", c.Wrap))
 }
 
 func TestC08Blank(t *testing.T) {
 	curT = t
 	vrt.Check(t, vrt.Prop[C07BlankCase]{
 		ID: "C08", Name: "blank",
-		Rule: "the histories of C07/blank (1..5 Blank.SetSource calls with live or 1h-deadline contexts against a free, parked or exited monitor, values that verify or not), optionally preceded by Blank.Done (the Blank gave up its watch slot; the monitor lives on iff another watcher exists) and optionally finished by Blank.Done under a 1h deadline; " +
+		Rule: "the histories of C07/blank (1..5 Blank.SetSource calls with live or 1h-deadline contexts against a free, parked or exited monitor, values that verify or not), optionally after a second Config was (wrongly) handed the same Blank and refused it, optionally preceded by Blank.Done (the Blank gave up its watch slot; the monitor lives on iff another watcher exists) and optionally finished by Blank.Done under a 1h deadline; " +
 			"oracle (C08's clauses): every call returns no later than its own context ends (virtual time), also the calls issued after an earlier call failed, timed out or the monitor exited (a leaked Blank mutex or a missing answer leaves the bubble deadlocked), nothing panics; " +
 			"non-trivial = a call that met a parked or exited monitor, or a rejected value; distinct = distinct case JSON",
 		Assumptions: []string{"SetSource is called after Config, as documented"},
@@ -276,7 +294,7 @@ func TestC07Blank(t *testing.T) {
 	curT = t
 	vrt.Check(t, vrt.Prop[C07BlankCase]{
 		ID: "C07", Name: "blank",
-		Rule: "1..5 Blank.SetSource calls on a Blank inside a real Dials (bare, or wrapped in a transforming source; optionally next to another watcher), with a live context or a 1h virtual-time deadline, while the monitor is free, parked inside Verify or right before it answers (until the caller's deadline has passed), or already gone; " +
+		Rule: "1..5 Blank.SetSource calls (inner sources static; the last one static or watching) on a Blank inside a real Dials (bare, or wrapped in a transforming source; optionally next to another watcher), with a live context or a 1h virtual-time deadline, while the monitor is free, parked inside Verify or right before it answers (until the caller's deadline has passed), or already gone; " +
 			"oracle: nil => the view holds the value; a value whose stack does not verify => the verifier's error and an unchanged view; the caller's context ending first => SetSource returns a context error no later than its own deadline (virtual time), the monitor then finishes on its own and the Blank stays usable (its mutex is released); " +
 			"non-trivial = a call that met a parked or exited monitor, or a rejected value; distinct = distinct case JSON",
 		Assumptions: []string{"SetSource is called after Config, as documented"},
